@@ -72,6 +72,26 @@ struct Run : ContBase {
         if (!ok) c.fail(FUNC, "hashtbl:put-failed", "put(%s) returned false, errno=%d", hexs(k).c_str(), errno);
         m[k] = e;
     }
+    // calls the library documents as refused (EINVAL): they must fail, say so, and change nothing
+    void do_refused(const std::string &k) {
+        int kind = (int)s.range(0, 5);
+        Buf *kb = Buf::cstr(k); std::string v = gen_val(false, 20); Buf vb(v);
+        errno = poison; bool ok; const char *what;
+        switch (kind) {
+            case 0: ok = qhashtbl_put(t, kb->c(), nullptr, vb.n); what = "put(key, NULL data, n)"; break;
+            case 1: ok = qhashtbl_putstr(t, kb->c(), nullptr); what = "putstr(key, NULL)"; break;
+            case 2: ok = qhashtbl_put(t, nullptr, vb.p, vb.n); what = "put(NULL name, data, n)"; break;
+            case 3: { size_t sz = 0; ok = qhashtbl_get(t, nullptr, &sz, s.boolean()) != nullptr; what = "get(NULL name)"; break; }
+            case 4: ok = qhashtbl_remove(t, nullptr); what = "remove(NULL name)"; break;
+            default: ok = qhashtbl_getnext(t, nullptr, s.boolean()); what = "getnext(NULL obj)";
+        }
+        int e = errno;
+        delete kb;
+        c.op("refused call %s, key %s [%s]", what, hexs(k, 12).c_str(), m.count(k) ? "present" : "absent");
+        if (ok) c.fail(FUNC, "hashtbl:invalid-accepted", "%s succeeded, documented EINVAL", what);
+        if (e != EINVAL) c.fail(FUNC, "hashtbl:invalid-errno", "%s: errno=%d, documented EINVAL", what, e);
+        full_compare("refused call");
+    }
     void do_get(const std::string &k) {
         auto it = m.find(k);
         int api = (int)s.pick({4, 2, 2});          // get getstr getint
@@ -168,7 +188,7 @@ struct Run : ContBase {
         if (!t) c.fail(FUNC, "hashtbl:ctor", "qhashtbl(%zu,0) returned NULL", range);
         int maxops = c.tier ? 3000 : 500, ops = 0;
         while (!s.exhausted() && ops++ < maxops) {
-            int o = (int)s.pick({30, 16, 22, 2, 1, 6, 1, 2});
+            int o = (int)s.pick({30, 16, 22, 2, 1, 6, 1, 2, 2});
             const char *what = "op";
             switch (o) {
                 case 0: do_put(universe[s.range(0, (long)U - 1)]); what = "put"; break;
@@ -177,6 +197,7 @@ struct Run : ContBase {
                 case 3: c.op("size()"); what = "size"; break;
                 case 4: qhashtbl_clear(t); c.op("clear()"); note_outlived(); m.clear(); verify_kept(false); what = "clear"; break;
                 case 5: do_walk(); what = "walk"; break;
+                case 8: do_refused(universe[s.range(0, (long)U - 1)]); what = "refused call"; break;
                 case 6: { if (!devnull) devnull = fopen("/dev/null", "w"); bool ok = qhashtbl_debug(t, devnull); c.op("debug()"); if (!ok) c.fail(FUNC, "hashtbl:debug", "debug() returned false"); what = "debug"; break; }
                 default: c.op("compare-all"); full_compare("full comparison"); what = "compare";
             }
